@@ -216,6 +216,31 @@ def oracle(prop, run):
                     bad = [lab for lab, t in tasks.items() if t["state"] not in ("COMPLETED", "CANCELLED")]
                     if bad:
                         yield (f"C05 work-conserving-run-left-tasks-unfinished policy={pol['name']}", {"tasks": bad[:5]})
+    if prop == "C18":
+        for e in mon:
+            if e["ev"] != "offer":
+                continue
+            if e["starved"]:
+                yield ("C18 ready-task-not-offered", {"offer": {k: e[k] for k in ("time", "lookahead", "rtg")}, "starved": e["starved"][:5]})
+            seen = set()
+            for o in e["offered"]:
+                if o["t"] in seen:
+                    yield ("C18 task-offered-twice", {"task": o["t"], "time": e["time"]})
+                seen.add(o["t"])
+                if o["state"] in ("COMPLETED", "CANCELLED"):
+                    yield (f"C18 {o['state'].lower()}-task-offered", {"task": o["t"], "time": e["time"]})
+                if o["state"] == "RUNNING" and not e["preemption"]:
+                    yield ("C18 running-task-offered-without-preemption", {"task": o["t"], "time": e["time"]})
+                if o["state"] == "SCHEDULED" and not e["retract"] and not e["preemption"]:
+                    yield ("C18 scheduled-task-offered-without-retraction", {"task": o["t"], "time": e["time"]})
+                # a policy that does not plan ahead (no lookahead, no release_taskgraphs) never sees a task whose
+                # predecessors have not all completed (a join: at least one); zero-length live tasks complete "now"
+                plans_ahead = world["policy"]["name"] not in ("EDF", "FIFO", "LSF")  # the random policy places in the future
+                if not plans_ahead and e["lookahead"] == 0 and not e["rtg"] and not e["zero_remaining_live_task"] and o["state"] in ("VIRTUAL", "RELEASED"):
+                    done = [q for q in o["parents"] if q[1] in DONE]
+                    ok = (not o["parents"]) or (bool(done) if o["terminal"] else len(done) == len(o["parents"]))
+                    if not ok:
+                        yield ("C18 task-offered-before-its-predecessors-completed", {"task": o, "time": e["time"]})
     if prop == "C08" and obs["err"] is None:
         end = [r for r in rows if r[1] == "SIMULATOR_END"]
         if end:
